@@ -8,6 +8,7 @@ package main
 import (
 	"fmt"
 	"go/types"
+	"hash/fnv"
 	"os"
 	"runtime/debug"
 	"sort"
@@ -139,6 +140,7 @@ type Interp struct {
 	queryDump  map[string]string // assert id -> one smt2 script (first discharged)
 	rtypes     map[string]*RType
 	queryHashes map[uint64]bool
+	pathHashes map[uint64]bool
 	initPkg    *ssa.Package
 	initMode   bool
 	allowUserInit map[string]bool
@@ -161,7 +163,7 @@ func NewInterp(prog *ssa.Program, arch string) *Interp {
 		maxSteps: 200_000_000, maxSymIndex: 64, maxDecisions: 100000,
 		reroute: map[string]*ssa.Function{}, fnsSeen: map[string]int{}, stubsSeen: map[string]int{},
 		seenViol: map[string]bool{}, assertIDs: map[string]bool{}, arch: arch,
-		queryDump: map[string]string{}, rtypes: map[string]*RType{}, queryHashes: map[uint64]bool{}, symStrHooks: map[string]symStrHook{}, xPerHarness: map[string]int{},
+		queryDump: map[string]string{}, rtypes: map[string]*RType{}, queryHashes: map[uint64]bool{}, pathHashes: map[uint64]bool{}, symStrHooks: map[string]symStrHook{}, xPerHarness: map[string]int{},
 	}
 	in.sizes = types.SizesFor("gc", arch)
 	for _, p := range prog.AllPackages() {
@@ -503,6 +505,19 @@ func (in *Interp) RunHarness(fn *ssa.Function, deadline time.Time) {
 		in.runPath(fn)
 		in.stats.Paths++
 		in.stats.Steps += int64(p.steps)
+		if len(p.pc) > 0 || len(p.dec) > 0 {
+			// a distinct non-trivial case: a path whose condition mentions symbolic inputs or
+			// that was selected by explicit choices (schedules, verifChoice)
+			h := fnv.New64a()
+			fmt.Fprintf(h, "%s|", fn.Name())
+			for _, c := range p.pc {
+				fmt.Fprintf(h, "%d,", c.id)
+			}
+			for _, d := range p.dec {
+				fmt.Fprintf(h, "/%d", d.choice)
+			}
+			in.pathHashes[h.Sum64()] = true
+		}
 		if len(p.dec) > in.stats.MaxDepth {
 			in.stats.MaxDepth = len(p.dec)
 		}
